@@ -62,6 +62,8 @@ def main():
         junk2 = [str(i) * 3 for i in range(rnd.randrange(10, 5000))]
         del junk2
     import jedi
+    from harness.core import private_cache
+    private_cache()
     from jedi.api.environment import SameEnvironment
     assert os.path.abspath(jedi.__file__).startswith(os.path.abspath(REPO) + os.sep)
     env = SameEnvironment()
